@@ -867,6 +867,70 @@ theorem domain_sets_match (re : Bytes → Bytes → Bool) (cfgs : List (List (Ki
   intro i f hf
   rw [h2 i f hf, reach_iff_someRule]
 
+/-! ### Tables of rules with values (`hosts`): every line's rule is used as written -/
+
+theorem mem_hostsRules (dflt : Option Kind) : ∀ (fields : List Bytes) (rs : List (Kind × Bytes)),
+    hostsRules id dflt fields = some rs → ∀ r, r ∈ rs ↔ ∃ f ∈ fields, splitRule dflt f = some r := by
+  intro fields
+  induction fields with
+  | nil =>
+    intro rs h r
+    simp only [hostsRules, Option.some.injEq] at h
+    subst h; simp
+  | cons f fs ih =>
+    intro rs h r
+    simp only [hostsRules, id] at h
+    cases hf : splitRule dflt f with
+    | none => rw [hf] at h; simp at h
+    | some r0 =>
+      rw [hf] at h
+      cases hr : hostsRules id dflt fs with
+      | none => rw [hr] at h; simp at h
+      | some rs0 =>
+        rw [hr] at h
+        simp only [Option.some.injEq] at h
+        subst h
+        have ih' := ih rs0 hr r
+        simp only [List.mem_cons, ih']
+        constructor
+        · rintro (e | ⟨g, hg, hs⟩)
+          · exact ⟨f, Or.inl rfl, by rw [hf, e]⟩
+          · exact ⟨g, Or.inr hg, hs⟩
+        · rintro ⟨g, hg | hg, hs⟩
+          · subst hg; rw [hf] at hs; exact Or.inl (Option.some.inj hs).symm
+          · exact Or.inr ⟨g, hg, hs⟩
+
+/-- **C12 for a hosts table.** When the parser hands every line's first field to `Add` as written
+(`rw = id`, fact `c12HostsRuleAsWritten`), the table matches a name iff the rule written on some line
+(type prefix or the table's default type) describes it - for a `regexp:` line: iff the expression as
+written matches the normalised name. -/
+theorem hosts_table_hit_iff (re : Bytes → Bytes → Bool) (dflt : Option Kind) (fields : List Bytes)
+    (rs : List (Kind × Bytes)) (h : hostsRules id dflt fields = some rs) (name : Bytes) :
+    (mixOfRules rs).hit re name = true ↔ ∃ f ∈ fields, ∃ r, splitRule dflt f = some r ∧ describes re r name := by
+  rw [rules_hit_iff]
+  constructor
+  · rintro ⟨r, hr, hd⟩
+    obtain ⟨f, hf, hs⟩ := (mem_hostsRules dflt fields rs h r).1 hr
+    exact ⟨f, hf, r, hs, hd⟩
+  · rintro ⟨f, hf, r, hs, hd⟩
+    exact ⟨r, (mem_hostsRules dflt fields rs h r).2 ⟨f, hf, hs⟩, hd⟩
+
+/-- Why the rule must be taken as written: a parser that lower-cases the field (`rw = map lower`,
+harmless for full / domain / keyword rules, which are normalised anyway: `add_normalised`) turns the
+line `regexp:^\D` into the rule `^\d`, another expression. With an engine `re` on which `^\D`
+matches `a` and `^\d` does not, the written rule describes the name `a` and the loaded table does
+not match it. -/
+theorem lowercasing_parser_rewrites_regexps :
+    let line : Bytes := [114, 101, 103, 101, 120, 112, 58, 94, 92, 68]        -- regexp:^\D
+    let e : Bytes := [94, 92, 68]                                              -- ^\D
+    let name : Bytes := [97]                                                   -- a
+    let re : Bytes → Bytes → Bool := fun x n => x == e && n == name
+    hostsRules id (some .full) [line] = some [(.regexp, e)] ∧
+    hostsRules (·.map lower) (some .full) [line] = some [(.regexp, [94, 92, 100])] ∧
+    (mixOfRules [(.regexp, e)]).hit re name = true ∧
+    (mixOfRules [(Kind.regexp, ([94, 92, 100] : Bytes))]).hit re name = false := by
+  decide
+
 /-- Finding F14, as a witness about the old `Len` (`SubDomainMatcher.Len = m.root.len()`, the root's
 own value not counted): a set whose only rule is the rule for the root - `domain:.` describes every
 name - had `Len() = 0`, so `NewDomainSet` dropped its matcher and the set matched nothing. With the
@@ -1096,7 +1160,12 @@ theorem facts_guard :
     Gen.Facts.c12SetMembersOwnThenSets = some true ∧
     Gen.Facts.c12GroupMatchIsAny = some true ∧
     Gen.Facts.c12LenCountsValuedNodesAndRoot = some true ∧
-    Gen.Facts.c12SetGroupOwned = some true := by decide
+    Gen.Facts.c12SetGroupOwned = some true ∧
+    -- rules with values: hosts.ParseIPs returns the first field as written (`hostsRules id`,
+    -- `hosts_table_hit_iff`); the text loader gives every line a string of its own (the maps and the trie
+    -- keep substrings of it: the model's rule lists hold values, not views into a read buffer)
+    Gen.Facts.c12HostsRuleAsWritten = some true ∧
+    Gen.Facts.c12LoaderOwnsLineStrings = some true := by decide
 
 /-- On this tree the constructor of `domain_set` is the owning one (`c12SetGroupOwned`: every write to
 a set's group is `ds.mg = append(ds.mg, m)` onto the new set's own slice): whatever sets a configuration
